@@ -5,9 +5,13 @@ Require Import PV.Debugger.Proto PV.Debugger.Spec PV.Debugger.Tactics.
 
 Definition p_gone (s : state) : Prop := p_pc s = PNone \/ p_pc s = PDone \/ p_pc s = PDead.
 
+(* who holds the guard of the breakpoint set *)
+Definition p_held (s : state) : bool := match p_pc s with PHeld _ _ _ => true | _ => false end.
+Definition c_held (s : state) : bool := match c_pc s with EAdd _ | EDel _ => true | _ => false end.
+
 Definition struct_inv (s : state) : Prop :=
   (match c_pc s with
-   | CIdle | KLoad => handle s = false -> p_pc s = PNone \/ p_pc s = PDead
+   | CIdle | KLoad | EAdd _ | EDel _ => handle s = false -> p_pc s = PNone \/ p_pc s = PDead
    | KUnpark => handle s = true
    | RLoad _ _ _ | RStore _ _ _ | RUnpark _ _ _ | RJoin _ _ _ => handle s = false /\ p_pc s <> PNone
    | RReset _ _ | RSpawn _ _ => handle s = false /\ p_gone s
@@ -15,15 +19,17 @@ Definition struct_inv (s : state) : Prop :=
   (handle s = true -> p_pc s <> PNone) /\
   (* an abort is only ever caused by the flag, and the flag stays up while the thread lives *)
   (aborted (log s) = true -> p_pc s <> PDone -> p_pc s <> PDead -> is_done s = true) /\
-  (p_pc s = PNone -> log s = []).
+  (p_pc s = PNone -> log s = []) /\
+  (* the mutex is held by exactly the thread whose control point says so *)
+  mtx s = (p_held s || c_held s) /\ (p_held s && c_held s = false).
 
 Lemma struct_init : forall cs b, struct_inv (init cs b).
-Proof. intros. unfold struct_inv, p_gone. cbn. intuition congruence. Qed.
+Proof. intros. unfold struct_inv, p_gone, p_held, c_held. cbn. intuition congruence. Qed.
 
 Lemma struct_step : forall cf s t s', struct_inv s -> step cf s t = Some s' -> struct_inv s'.
 Proof.
   intros cf s t s' Hi H. destruct cf as [fx sp cp0].
-  destruct t; step_inv s H; unfold struct_inv, p_gone, aborted in *; cbn in *;
+  destruct t; step_inv s H; unfold struct_inv, p_gone, p_held, c_held, aborted in *; cbn in *;
     try match goal with cp : cpc |- _ => destruct cp end;
     try match goal with pp : ppc |- _ => destruct pp end;
     repeat match goal with |- context [next_pc ?es ?o] => destruct es; cbn end;
